@@ -80,15 +80,16 @@ type Pkg struct {
 type Decl struct {
 	Name     string
 	Cmp      bool
-	Iface    bool     // method-set interface: embeddable, mockable
-	Methods  []string // method names of an interface (complete set)
-	Constr   bool     // constraint-only interface (has type terms)
-	NTParams int      // generic: number of type parameters
-	TPCmp    []bool   // generic: parameter i needs a comparable argument
-	Src      string   // declaration text for world packages (uses %Q{path} placeholders for qualifiers)
-	Uses     []*Pkg   // packages mentioned by Src
-	Stringer bool     // has a String() string method (witness for Strer-like constraints)
-	IntLike  bool     // underlying int (witness for ~int constraints)
+	Iface    bool      // method-set interface: embeddable, mockable
+	Methods  []string  // method names of an interface (complete set)
+	Constr   bool      // constraint-only interface (has type terms)
+	NTParams int       // generic: number of type parameters
+	TPCmp    []bool    // generic: parameter i needs a comparable argument
+	Src      string    // declaration text for world packages (uses %Q{path} placeholders for qualifiers)
+	Uses     []*Pkg    // packages mentioned by Src
+	Twin     [2]string // local declaration living in two build-constrained files: [tag expression, source for !tag]; Src is the source under the tag
+	Stringer bool      // has a String() string method (witness for Strer-like constraints)
+	IntLike  bool      // underlying int (witness for ~int constraints)
 	Alias    bool
 	Exported bool
 	NonType  string // package-level object that is not a type: var-iface | var-error | func | const (hostile arguments only)
